@@ -1,7 +1,80 @@
+import MesonModel.Tap.Model
 import Driver.Proto
-/- driver commands of area `tap` (stub until the area is built) -/
+/- driver commands of area `tap` -/
 namespace Driver.Tap
+open MesonModel.Tap MesonModel.Py Driver
 
-def handle (cmd : String) (fs : List String) : String := "bad-op"
+def showStr (s : List Char) : String := encodeStr s
+
+def showOpt : Option (List Char) → String
+  | none => "N"
+  | some s => "S" ++ encodeStr s
+
+def showOptNat : Option Nat → String
+  | none => "None"
+  | some n => toString n
+
+def showErr : Err → String
+  | .yamlNotTerminated n => s!"yaml:{showOptNat n}"
+  | .lateTest => "late"
+  | .exceedsPlan => "exceeds"
+  | .invalidDirective d => s!"baddir:{showStr d}"
+  | .secondPlan => "plan2"
+  | .planSkipInvalid => "planskip"
+  | .planDirectiveInvalid => "plandir"
+  | .versionNotFirst => "verpos"
+  | .versionTooLow => "verlow"
+  | .tooFew a b => s!"few:{a}:{b}"
+  | .tooMany a b => s!"many:{a}:{b}"
+  | .duplicate a b => s!"dup:{a}:{b}"
+  | .missing a b => s!"miss:{a}:{b}"
+
+def showEvent : Event → String
+  | .plan p => s!"P:{p.numTests}:{boolStr p.late}:{boolStr p.skipped}:{showOpt p.explanation}"
+  | .bailout m => s!"B:{showStr m}"
+  | .test n name r e => s!"T:{n}:{showStr name}:{r.name}:{showOpt e}"
+  | .error e => s!"E:{showErr e}"
+  | .unknown m n => s!"U:{showStr m}:{n}"
+  | .version v => s!"V:{v}"
+
+def showEvents (es : List Event) : String := ";".intercalate (es.map showEvent)
+
+def showClass : LineClass → String
+  | .skip => "skip"
+  | .test ok num name dir expl => s!"test:{boolStr ok}:{showOpt num}:{showStr name}:{showOpt dir}:{showOpt expl}"
+  | .plan ds dir expl => s!"plan:{showStr ds}:{showOpt dir}:{showOpt expl}"
+  | .bailout m => s!"bail:{showStr m}"
+  | .version ds => s!"version:{showStr ds}"
+  | .unknown => "unknown"
+
+/-- `n|item,item,…` (the count disambiguates `[]` from `['']`) -/
+def decodeLines (n : String) (f : String) : List (List Char) :=
+  if n.trimAscii.toString == "0" then [] else (f.splitOn ",").map decodeStr
+
+def parseOpt (f : String) : Option (List Char) :=
+  if f.startsWith "S" then some (decodeStr (f.drop 1).toString) else none
+
+def showMode : Mode → String
+  | .main => "1" | .afterTest => "2" | .yaml => "3"
+
+def showState (s : PState) : String :=
+  let p := match s.plan with
+    | none => "None"
+    | some p => s!"{p.numTests}:{boolStr p.late}:{boolStr p.skipped}:{showOpt p.explanation}"
+  s!"{showMode s.state}/{p}/{s.numTests}/{s.lastTest}/{s.highestTest}/{boolStr s.foundLateTest}/{boolStr s.bailedOut}/{s.version}/{s.lineno}/{showOptNat s.yamlLineno}/{showStr s.yamlIndent}"
+
+def handle (cmd : String) (fs : List String) : String :=
+  match cmd, fs with
+  | "cls", [l] => showClass (classify (rstrip (decodeStr l)))
+  | "yaml", [l] =>
+    let l := decodeStr l
+    s!"{showOpt (yamlStart l)}:{boolStr (yamlEnd l)}"
+  | "ptest", [ok, num, name, dir, expl] =>
+    showEvents (parseTest (ok == "1") num.toNat! (decodeStr name) (parseOpt dir) (parseOpt expl))
+  | "parse", [n, ls] => showEvents (parse (decodeLines n ls))
+  | "state", [n, ls] => showState (run PState.init (decodeLines n ls)).1
+  | "verdict", [ef, inter, rc, n, ls] =>
+    (verdict (ef == "1") (inter == "1") rc.toInt! (parse (decodeLines n ls))).name
+  | _, _ => "bad-op"
 
 end Driver.Tap
